@@ -9,6 +9,11 @@ KP = 'KeyPair<schemes::algorithms::BBSplus<CS>>>::'
 PROOF_FIELDS = ['Abar', 'Bbar', 'D', 'e_cap', 'r1_cap', 'r3_cap', 'm_cap', 'challenge']
 
 # ---------------------------------------------------------------- RF-D requirements per verifier
+# a per-element range validation: a comparison inside the validating loop (which may run zero times), or a quantified predicate over the
+# whole list that must hold for every element (all(..) true / any(violates) false / find(violates) == None) on every path
+INDEX_RANGE_ALTS = [{'gate_op': ['Gt', 'Ge', 'Lt', 'Le'], 'any_path': True},
+                    {'gate_callee': ['Iterator::any', 'Iterator::all', 'Iterator::find', 'Iterator::position'], 'quantifier': 'forall'}]
+
 VERIFY_REQS = [
     (SIG + 'verify', [
         {'id': 'pairing', 'what': 'pairing comparison depends on A, e, pk, every message, header, api id, P1',
@@ -29,7 +34,7 @@ VERIFY_REQS = [
                    'a:API_ID', 'a:H2S', 'a:P1']},
         {'id': 'pairing', 'what': 'pairing check depends on Abar, Bbar, pk', 'gate_callee': ['is_identity', 'PartialEq'],
          'in_fn': ['core_proof_verify'], 'cover': ['self.Abar', 'self.Bbar', 'pk'], 'pure': ['self.Abar', 'self.Bbar', 'pk']},
-        {'id': 'index-range', 'any_path': True, 'what': 'each disclosed index is compared with U + R', 'gate_op': ['Gt', 'Ge', 'Lt', 'Le'],
+        {'id': 'index-range', 'what': 'each disclosed index is compared with U + R', 'alts': INDEX_RANGE_ALTS,
          'cover': ['disclosed_indexes', 'len(self.m_cap)', 'len(disclosed_indexes)']},
         {'id': 'count', 'what': 'len(disclosed messages) == len(disclosed indexes)', 'gate_op': ['Ne', 'Eq'],
          'cover': ['len(disclosed_messages)', 'len(disclosed_indexes)']},
@@ -42,7 +47,7 @@ VERIFY_REQS = [
                    'L', 'header', 'ph', 'a:API_ID_BLIND', 'c:b"BLIND_"', 'a:H2S']},
         {'id': 'pairing', 'what': 'pairing check depends on Abar, Bbar, pk', 'gate_callee': ['is_identity', 'PartialEq'],
          'in_fn': ['core_proof_verify'], 'cover': ['self.Abar', 'self.Bbar', 'pk'], 'pure': ['self.Abar', 'self.Bbar', 'pk']},
-        {'id': 'index-range', 'any_path': True, 'what': 'each (translated) disclosed index is compared with U + R', 'gate_op': ['Gt', 'Ge', 'Lt', 'Le'],
+        {'id': 'index-range', 'what': 'each (translated) disclosed index is compared with U + R', 'alts': INDEX_RANGE_ALTS,
          'cover': ['disclosed_indexes', 'disclosed_commitment_indexes', 'L', 'len(self.m_cap)']},
     ]),
     (BSIG + 'blind_sign', [
